@@ -169,7 +169,7 @@ class Bits:
             d.set_fn(self, v)
         except ValueError as e:
             raise bitstring.CreationError(e)
-        if length is not None and len(self) != d.bitlength:
+        if d.bitlength is not None and len(self) != d.bitlength:
             raise bitstring.CreationError(f"The '{k}' value given is {len(self)} bits long, which doesn't match the specified length of {d.bitlength} bits.")
 
     def __getattr__(self, attribute: str) -> Any:
